@@ -525,17 +525,18 @@ func (fr *frame) lookup(instr *ssa.Lookup, x, idx value) value {
 // numeric datatypes and strings.  Both operands must have identical
 // dynamic type.
 func binop(op token.Token, t types.Type, x, y value) value {
-	if fx, ok := x.(sfloat); ok {
-		if c, ok := y.(float64); ok && op == token.MUL {
-			return sfloatMul(fx, c)
+	if isFloatSym(x) || isFloatSym(y) {
+		if fx, ok := x.(sfloat); ok {
+			if c, ok := y.(float64); ok && op == token.MUL {
+				return sfloatMul(fx, c)
+			}
 		}
-		panic(engineError{"not encodable: floating-point operation on a symbolic value"})
-	}
-	if fy, ok := y.(sfloat); ok {
-		if c, ok := x.(float64); ok && op == token.MUL {
-			return sfloatMul(fy, c)
+		if fy, ok := y.(sfloat); ok {
+			if c, ok := x.(float64); ok && op == token.MUL {
+				return sfloatMul(fy, c)
+			}
 		}
-		panic(engineError{"not encodable: floating-point operation on a symbolic value"})
+		return fpBinop(op, x, y)
 	}
 	if isSym(x) || isSym(y) {
 		return symBinopTok(op, x, y)
@@ -1047,6 +1048,10 @@ func unop(instr *ssa.UnOp, x value) value {
 	if s, ok := x.(sv); ok {
 		return symUnop(instr.Op, s)
 	}
+	if isFloatSym(x) && instr.Op == token.SUB {
+		tt := fpTable(x, nil)
+		return sfp{tt.App("fp.neg", wFP, fpTerm(tt, x))}
+	}
 	switch instr.Op {
 	case token.ARROW: // receive
 		v, ok := <-x.(chan value)
@@ -1534,7 +1539,21 @@ func conv(t_dst, t_src types.Type, x value) value {
 			w, _ := kindInfo(d.Kind())
 			return norm(fx.T.tt.Resize(fx.T, w, false), d.Kind())
 		}
+		if d, ok := ut_dst.(*types.Basic); ok && d.Kind() == types.Float64 {
+			return fx
+		}
 		panic(engineError{"not encodable: conversion of a symbolic float"})
+	}
+	if fx, ok := x.(sfp); ok {
+		if d, ok := ut_dst.(*types.Basic); ok {
+			if d.Info()&types.IsInteger != 0 {
+				return fpToInt(fx, d.Kind())
+			}
+			if d.Kind() == types.Float64 {
+				return fx
+			}
+		}
+		panic(engineError{"not encodable: conversion of a symbolic float64 to " + t_dst.String()})
 	}
 	if sx, ok := x.(sv); ok {
 		if d, ok := ut_dst.(*types.Basic); ok {
